@@ -413,6 +413,9 @@ def extra_tasks(pid):
     ts = []
     if pid == 'C05':
         ts += [('contracts.traces', 'miss_on_vanished_file', (pol,)) for pol in ('least-recently-stored', 'least-recently-used')]
+        # iteration hands out items between lookups of the same client: it must not keep a read snapshot open
+        ts += [('contracts.iteration', 'iter_task', ('C05', True)), ('contracts.iteration', 'iter_task', ('C05', False)),
+               ('contracts.iteration', 'iterkeys_task', ('C05', False)), ('contracts.iteration', 'iterkeys_task', ('C05', True))]
     if pid == 'C14':
         ts += [('contracts.traces', 'lookups_take_no_lock', (pol,)) for pol in ('least-recently-stored', 'none')]
         from contracts import fanout_common as fc
